@@ -86,6 +86,18 @@ def no_repeat_skewed(rng, n, k=64):
     return bytes(out)
 
 
+def flat_then_flat(rng, k=200, times=6, first_len=131072, second_len=97000):
+    """block 1 as in flat_then_skew (a flat histogram whose literals do not pay for a Huffman table, then long matches);
+    block 2: the same values, again exactly equally frequent, in a fresh shuffle and many more of them -- its literals
+    do pay, and its table has the same code lengths as the one block 1 would have used"""
+    b1, _ = flat_then_skew(rng, k, times, first_len, 1)
+    L = [v for v in range(k) for _ in range(second_len // k)]
+    for i in range(len(L) - 1, 0, -1):
+        j = rng.below(i + 1)
+        L[i], L[j] = L[j], L[i]
+    return b1, bytes(L)
+
+
 def flat_then_skew(rng, k=200, times=6, first_len=131072, second_len=97000):
     """block 1: a flat histogram over k values (times each, shuffled) followed by repetitions of itself (long matches,
     the literals do not pay for a Huffman table); block 2: the same values, the highest ones much more frequent"""
